@@ -1,4 +1,4 @@
-import MgpuModel.C10Dev
+import MgpuModel.C10
 import MgpuProofs.C10Lemmas
 /-!
 C10 (composition): the allocator layer over an abstract device memory state keeps the page table injective and
@@ -296,13 +296,13 @@ theorem ginv_removePage {s s' : GState σ} {L} (h : GInv S s L) {v : Nat}
     · rename_i d hd
       split at hs
       · cases hs
-      · rename_i pt' hrm
+      · rename_i m hm
         split at hs
         · cases hs
-        · rename_i m hm
+        · rename_i m' hadd
           split at hs
           · cases hs
-          · rename_i m' hadd
+          · rename_i pt' hrm
             injection hs with hs
             subst hs
             unfold ptRemove at hrm
